@@ -43,6 +43,9 @@ type Op struct {
 	// BadCast: the exchange inputs are sent with a non-castable column type
 	// (utf8 "x" for the declared int64): the cast fails on the first turn.
 	BadCast bool
+	// BadCastShape: 0 a string column "x"; 1 the declared column plus an extra
+	// trailing one; 2 a column with another name
+	BadCastShape int
 	WriteAhead int  // extra inputs written before reading the previous output
 	// AfterCancel: inputs the client still writes after its cancel batch before
 	// closing the input stream (the last of them another cancel batch when
@@ -291,11 +294,19 @@ func (s *Session) write(b []byte) error {
 func inputBatch(op *Op, k int, cancel bool) arrow.RecordBatch {
 	var b arrow.RecordBatch
 	if op.StreamKind == "exchange" {
-		if cancel && op.BadCast {
+		if cancel && op.BadCast && op.BadCastShape == 1 {
+			b = hx.Int64Cols([]string{"x", "z"}, nil)
+		} else if cancel && op.BadCast && op.BadCastShape == 2 {
+			b = hx.Int64Cols([]string{"y"}, nil)
+		} else if cancel && op.BadCast {
 			// same (non-castable) schema as the rest of this input stream
 			b = hx.StringBatchN([]string{"x"}, nil)
 		} else if cancel {
 			b = hx.Int64Batch("x", nil, op.Cast)
+		} else if op.BadCast && op.BadCastShape == 1 {
+			b = hx.Int64Cols([]string{"x", "z"}, []int64{int64(k + 1)})
+		} else if op.BadCast && op.BadCastShape == 2 {
+			b = hx.Int64Cols([]string{"y"}, []int64{int64(k + 1)})
 		} else if op.BadCast {
 			b = hx.StringBatch([]string{"x"}, []string{"not-a-number"})
 		} else if op.ZeroRowAt == k+1 {
